@@ -179,6 +179,10 @@ impl Shape {
 
 pub fn increments(p: u128) -> Vec<u128> {
     let mut v: Vec<u128> = vec![0, 1, 2, 5];
+    if p > 40 {
+        // increments that would pair with the truncated precision
+        v.extend([100, 1_000_000_000_000_000_000]);
+    }
     if p <= 36 {
         let t = 10u128.pow(p as u32);
         v.extend([t.saturating_sub(1), t, t + 1, 2 * t, 3 * t, 10 * t, 7 * t + t / 2]);
@@ -364,7 +368,7 @@ fn usable(sh: &Shape, store: &Store, out: &mut SweepOut) {
     let mut s = store.clone();
     for (i, act) in steps.iter().enumerate() {
         out.calls += 1;
-        match step(&s, &chain, &act.sender, &act.funds, &act.msg) {
+        match crate::scenario::step_act(&s, &chain, act) {
             Outcome::Accepted(a) => {
                 if !a.deliverable() {
                     out.viols.entry(format!("C13/accepted-configuration-unusable/{}-undeliverable", act.req.kind())).or_insert((0, shape_value(sh), format!("{:?}", a.flows))).0 += 1;
@@ -447,7 +451,8 @@ fn shapes_for(p: u128, inc: u128, k: usize, full: bool) -> Vec<Shape> {
 pub fn sweep(tier: Tier) -> SweepOut {
     let ident = package_identity();
     let mut jobs: Vec<(u128, u128)> = vec![];
-    for p in (0..=20u128).chain([38u128, 39, 40]) {
+    // 2^32 + k and 2^64 + k: values whose low 32 / 64 bits look like a legal precision
+    for p in (0..=20u128).chain([38u128, 39, 40, 1 << 32, (1 << 32) + 2, (1 << 32) + 18, (1 << 64) + 18, u128::MAX]) {
         for inc in increments(p) {
             jobs.push((p, inc));
         }
@@ -545,6 +550,7 @@ pub fn closure_plan(pairs: &[(u128, u128)], tier: Tier) -> crate::catalogue::Pla
             two_approvers: false,
             modifies: vec![],
             quotes: vec![],
+            migrates: vec![],
         };
         v.push(scen(&format!("B11/p{p}/inc{inc}"), cfg, menu, vec![]));
     }
